@@ -7,6 +7,7 @@ from ..expr import (expr_of_operand, expr_of_local, call_arg_exprs, evaluate, de
 from ..engines import OK, ERR, SOME, NONE
 from .. import lenck as L
 from . import common as cm
+from ..inline import inline
 
 EXPLANATION = (
     "LEN/REACH. Scope: every function reachable (context-sensitive call graph) from the untrusted-input entry "
@@ -344,13 +345,33 @@ def some_edges(f):
                 out[(b, tgt)] = x.b.split(".")[-1]
         elif e.k == "discr" and e.a.k == "field" and 1 in arms:
             out[(b, arms[1])] = e.a.b.split(".")[-1]
+        else:
+            oe = option_eq_some(e)
+            if oe is not None and 0 in arms:
+                fld, val, is_ne = oe
+                out[(b, arms[0] if is_ne else t["otherwise"])] = fld
     return out
+
+
+def option_eq_some(e):
+    """`<field> == Some(c)` / `<field> != Some(c)` through Option's PartialEq: (field, c, is_ne)"""
+    if e.k != "call" or e.a.name not in ("eq", "ne") or "PartialEq" not in e.a.path or len(e.a.args) != 2:
+        return None
+    ax = call_arg_exprs(e.a)
+    flds = [x for x in ax if x.k == "field"]
+    somes = [x for x in ax if x.k == "agg" and x.a == "std::option::Option" and x.b == "Some"]
+    if len(flds) != 1 or len(somes) != 1:
+        return None
+    val = evaluate(somes[0].c[0], {}) if somes[0].c else None
+    return flds[0].b.split(".")[-1], (val if isinstance(val, int) and not isinstance(val, bool) else None), e.a.name == "ne"
 
 
 def ok_postcondition_some(prog, g, memo):
     """fields of the Ok payload struct that are Some on every Ok return of g"""
     if g.key in memo:
         return memo[g.key]
+    key0 = g.key
+    g = inline(prog, g)      # validation may live in private helpers of the parser
     se = some_edges(g)
     res = None
     for b, kind, e in result_kind_of_ret(g):
@@ -360,8 +381,8 @@ def ok_postcondition_some(prog, g, memo):
             continue
         known = {fld for edge, fld in se.items() if g.edge_dominates(edge, b)}
         res = known if res is None else (res & known)
-    memo[g.key] = res or set()
-    return memo[g.key]
+    memo[key0] = res or set()
+    return memo[key0]
 
 
 def ok_postcondition_values(prog, g, memo):
@@ -370,8 +391,19 @@ def ok_postcondition_values(prog, g, memo):
     key = ("vals", g.key)
     if key in memo:
         return memo[key]
+    g = inline(prog, g)
     lctx = L.Ctx(g, cm.view_info)
     econs = L.edge_constraints(g, lctx)
+    # `field == Some(c)` edges give unwrap(field) == c
+    eqs = {}
+    for b_ in range(g.n):
+        t_ = g.blocks[b_]["t"]
+        if t_["k"] != "switch":
+            continue
+        oe = option_eq_some(expr_of_operand(g, t_["x"]))
+        arms_ = {v: tb for v, tb in t_["arms"]}
+        if oe is not None and oe[1] is not None and 0 in arms_:
+            eqs[(b_, arms_[0] if oe[2] else t_["otherwise"])] = (oe[0], oe[1])
     res = None
     for b, kind, e in result_kind_of_ret(g):
         if kind != "ok" or b not in g.reachable(0):
@@ -387,12 +419,29 @@ def ok_postcondition_values(prog, g, memo):
             if not m:
                 continue
             cur.setdefault(m.group(1), []).append((lin[vs[0]], lin.get(1, 0), rel))
+        for edge, (fld, val) in eqs.items():
+            if g.edge_dominates(edge, b):
+                from fractions import Fraction
+                cur.setdefault(fld, []).append((Fraction(1), Fraction(-val), "=="))
         if res is None:
             res = cur
         else:
             res = {k: [x for x in v if x in res.get(k, [])] for k, v in cur.items() if k in res}
     memo[key] = res or {}
     return memo[key]
+
+
+def caller_supplied_field(f, text):
+    m = re.match(r"^_(\d+)((?:\.\w+)+)$", text)
+    if not m:
+        return False
+    l = int(m.group(1))
+    if 1 <= l <= f.argc:
+        return True
+    # a local that is a (clone of a) parameter or of a parameter's field
+    from ..core import strip_reborrow
+    root = cm.view_info(f, l)[0]
+    return 1 <= root <= f.argc
 
 
 def peel_unwrap_target(e):
@@ -572,17 +621,7 @@ class Discharger:
             n = lctx.lin(expr_of_operand(f, c.args[1]))
             if n is None:
                 return ("fail", "resize to a non-linear size")
-            okv = True
-            for v, coef in n.items():
-                if v == 1:
-                    continue
-                if isinstance(v, tuple) and v[0] == "len" and 0 < coef <= 2:
-                    continue
-                if isinstance(v, tuple) and v[0] == "constparam":
-                    continue
-                if isinstance(v, tuple) and v[0] in ("field", "local") and ("hash_length" in str(v[1]) or "new_len" in str(v[1]) or "salt_length" in str(v[1])):
-                    continue   # trusted configuration / forwarded size parameter (checked at its own call sites)
-                okv = False
+            okv = self.size_ok(f, lctx, n, 0)
             if okv and abs(n.get(1, 0)) <= (1 << 20):
                 return ("ok", "allocation size %s is bounded by the input length (its own arithmetic is checked separately)" % L.lin_repr(n))
             return ("fail", "allocation size %s is not bounded by an input length" % L.lin_repr(n))
@@ -606,6 +645,38 @@ class Discharger:
         if lifted:
             return ("lift", lifted)
         return ("ok", "entailed by %d dominating fact(s)" % len(facts))
+
+    def size_ok(self, f, lctx, n, depth):
+        """every term of an allocation size is an input length (x1 or x2), a const generic, or a size
+        the caller supplies as such: an integer parameter of a public function / a field of a
+        parameter (configuration); for a private function's size parameter, the argument at every
+        call site must satisfy the same rule."""
+        for v, coef in n.items():
+            if v == 1:
+                continue
+            if isinstance(v, tuple) and v[0] == "len" and 0 < coef <= 2:
+                continue
+            if isinstance(v, tuple) and v[0] == "constparam":
+                continue
+            if isinstance(v, tuple) and v[0] == "field" and caller_supplied_field(f, str(v[1])):
+                continue
+            if isinstance(v, tuple) and v[0] == "local":
+                ps = [p_ for p_ in range(1, f.argc + 1) if f.local_name(p_) == v[1]]
+                if ps:
+                    if f.vis == "pub" or f.key in self.entries or depth >= 3:
+                        continue
+                    good = True
+                    for g in self.prog.callers(f):
+                        for c in g.calls():
+                            if f in self.prog.callee_fns(c) and len(c.args) >= ps[0]:
+                                gl = L.Ctx(g, cm.view_info)
+                                m = gl.lin(expr_of_operand(g, c.args[ps[0] - 1]))
+                                if m is None or not self.size_ok(g, gl, m, depth + 1):
+                                    good = False
+                    if good:
+                        continue
+            return False
+        return True
 
     def shape_facts(self, f, goal):
         """interval facts for opaque expression variables occurring in the goal"""
